@@ -175,7 +175,15 @@ func fp(b *strings.Builder, v reflect.Value) {
 		b.WriteString(v.Type().String())
 		b.WriteByte('{')
 		for i := 0; i < v.NumField(); i++ {
-			b.WriteString(v.Type().Field(i).Name)
+			sf := v.Type().Field(i)
+			if sf.PkgPath != "" && !structural(sf.Type) {
+				// an unexported scalar (a cached hash, a "computed" flag, a
+				// memoised rendering) is representation, not value: a correct
+				// cache must not count as "the call changed its argument".
+				// What it does to later outputs is judged by invariants 1 and 3.
+				continue
+			}
+			b.WriteString(sf.Name)
 			b.WriteByte('=')
 			fp(b, fieldRW(src, i))
 			b.WriteByte(',')
@@ -203,4 +211,20 @@ func fp(b *strings.Builder, v reflect.Value) {
 	default:
 		fmt.Fprintf(b, "%s(?)", v.Type().String())
 	}
+}
+
+// structural reports whether values of type t can hold document structure
+// (members, elements, children) as opposed to a scalar.
+func structural(t reflect.Type) bool {
+	switch t.Kind() {
+	case reflect.Map, reflect.Interface, reflect.Struct:
+		return true
+	case reflect.Slice:
+		return t.Elem().Kind() != reflect.Uint8
+	case reflect.Pointer:
+		return structural(t.Elem())
+	case reflect.Array:
+		return structural(t.Elem())
+	}
+	return false
 }
